@@ -134,7 +134,7 @@ Proof. vm_compute. reflexivity. Qed.
 
 (* ---- the character switch of uriDissectQueryMallocExMm, translated from the C source on every check:
    labels exactly '&' and '=', each with its own body, as dissect_walk.  Proof in Proofs/SwitchQuery.v. *)
-From UP Require Import Generated.SwitchTables Proofs.SwitchRefine Proofs.SwitchQuery.
+From UP Require Import Generated.SwitchTables Proofs.SwitchBase Proofs.SwitchQuery.
 
 Theorem C17_dissect_switch_classes :
   (forall c, In c (concat t_dissect) <-> ((c =? 38) || (c =? 61))%N = true)
